@@ -463,7 +463,56 @@ def _copy_task(task):
     return part
 
 
+LONG = [7, 255, 256, 257, 1023, 1024, 1025, 4097]
+
+
+def _long_task(task):
+    """Long arrays (around powers of two, where vectorised shortcuts like to switch on): all inside, all NaN,
+    one offending element at the start / middle / end, NaN everywhere but one element - list, tuple,
+    float64 and float32 ndarrays, integer ndarray."""
+    qt, kind = task
+    part = Part()
+    units = TYPES[qt][0]
+    du = units[0]
+    db, lo, hi, lx, hx, lo_du, hi_du = make_world(qt, du, kind)
+    has_limits = lo is not None or hi is not None
+    nan = float("nan")
+    with worlds.installed(db):
+        model = Model(db)
+        for u in (units[0], units[1]):
+            P = dict(probes(db, model, qt, u, du, lo_du, hi_du))
+            inside, below, above = P["inside"], P["below"], P["above"]
+            for L in LONG:
+                patterns = [
+                    ("all inside", [inside] * L),
+                    ("all NaN", [nan] * L),
+                    ("below at the start", [below] + [inside] * (L - 1)),
+                    ("above in the middle", [inside] * (L // 2) + [above] + [inside] * (L - L // 2 - 1)),
+                    ("below at the end", [inside] * (L - 1) + [below]),
+                    ("NaN but one inside", [nan] * (L - 1) + [inside]),
+                    ("NaN but one above (first)", [above] + [nan] * (L - 1)),
+                ]
+                for pname, vals in patterns:
+                    am = [db.Convert(qt, u, du, v) for v in (below, inside, above)]
+                    conv = {below: am[0], inside: am[1], above: am[2]}
+                    considered = [conv[v] for v in vals if v == v]
+                    truth = all(satisfies(a, lo, hi, lx, hx) for a in considered) if has_limits else True
+                    for cont, mk in (("list", list), ("tuple", tuple), ("ndarray float64", lambda v: np.array(v, dtype=float)), ("ndarray float32", lambda v: np.array(v, dtype=np.float32))):
+                        if cont == "ndarray float32" and u != du:
+                            continue  # (float32 conversions are judged by C02 where float32 can hold them)
+                        cons = considered if cont != "ndarray float32" else [float(np.float32(a)) for a in considered]
+                        sig = "C12:long array:%s:%s:%s len %d %s in %s" % (qt, kind[0], cont, L, pname, u)
+                        _validate_object(part, sig, None, Array("lim", mk(vals), u), truth, cons, lo, hi, lx, hx)
+                        if cont != "ndarray float32":
+                            _validate_object(part, sig.replace("long array", "long FixedArray"), None, FixedArray(L, "lim", mk(vals), u), truth, cons, lo, hi, lx, hx)
+                    part.add("outcomes", ("long", pname, truth))
+        part.count("long_array_configurations")
+    return part
+
+
 def _task(task):
+    if task[0] == "long":
+        return _long_task(task[1])
     if task[0] == "copy":
         return _copy_task(task[1])
     if task[0] == "validate":
@@ -480,6 +529,7 @@ def run(ctx):
         tasks.append(("register", qt))
         for kindA in LIMIT_KINDS:
             tasks.append(("copy", (qt, kindA)))
+            tasks.append(("long", (qt, kindA)))
     run_sharded(ctx, _task, tasks)
     c = ctx.part.counters
     if c.get("exact_boundary_probes", 0) < 20:
